@@ -115,3 +115,47 @@ Qed.
 
 Lemma leaf_pos_height i : pos_height (2 * i) = 0.
 Proof. apply trailing_ones_even. Qed.
+
+(* exact parent of a position whose block index is even (left child): shape p h (2y) -> parent has
+   shape (h+1) y.  This is the case of every node the peak stack ever merges or joins. *)
+Lemma pos_parent_even p h y : shape p h (2 * y) -> p < U64 -> h < 63 ->
+  exists q, pos_parent p = Some q /\ shape q (h + 1) y /\ q < U64.
+Proof.
+  intros Hs Hp Hh.
+  assert (Hh' : pos_height p = h) by (apply (shape_height_N _ _ _ Hs)).
+  unfold pos_parent, pos_orientation. rewrite Hh'. unfold checked_shl64.
+  destruct (N.ltb_spec h 64) as [_|]; [|lia].
+  destruct (N.ltb_spec (h + 1) 64) as [_|]; [|lia].
+  cbn [opt_bind]. rewrite !N.mul_1_l.
+  assert (Hpow : 2 ^ (h + 1) < U64) by (change U64 with (2 ^ 64); apply N.pow_lt_mono_r; lia).
+  assert (Hpow0 : 2 ^ h < U64) by (change U64 with (2 ^ 64); apply N.pow_lt_mono_r; lia).
+  rewrite (N.mod_small (2 ^ (h + 1))) by exact Hpow. rewrite (N.mod_small (2 ^ h)) by exact Hpow0.
+  rewrite land_pow2, (shape_testbit p h (2 * y) Hs).
+  assert (Hodd : N.odd (2 * y) = false) by (rewrite N.odd_mul, N.odd_2; reflexivity).
+  rewrite Hodd. destruct (N.eqb_spec 0 0) as [_|]; [|lia].
+  pose proof (pow2_pos h) as P0. pose proof (pow2_pos (h + 1)) as P1.
+  assert (E1 : 2 ^ (h + 1) = 2 * 2 ^ h) by (rewrite N.pow_add_r, N.pow_1_r; lia).
+  assert (E2 : 2 ^ (h + 1 + 1) = 2 * 2 ^ (h + 1)) by (rewrite (N.pow_add_r 2 (h + 1) 1), N.pow_1_r; lia).
+  unfold shape in Hs.
+  assert (Hq : p + 2 ^ h = y * 2 ^ (h + 1 + 1) + 2 ^ (h + 1) - 1) by (rewrite Hs, E2, E1; lia).
+  assert (Hlt : p + 2 ^ h < U64).
+  { assert (Hx64 : (2 * y) * 2 ^ (h + 1) < U64) by lia.
+    assert (E64 : U64 = 2 ^ (63 - h) * 2 ^ (h + 1)).
+    { rewrite <- N.pow_add_r. replace (63 - h + (h + 1)) with 64 by lia. reflexivity. }
+    assert (Hxx : 2 * y < 2 ^ (63 - h)).
+    { apply (N.mul_lt_mono_pos_r (2 ^ (h + 1))); [exact P1|]. rewrite <- E64. exact Hx64. }
+    assert ((2 * y + 1) * 2 ^ (h + 1) <= U64) by (rewrite E64; apply N.mul_le_mono_r; lia).
+    lia. }
+  unfold checked_add. destruct (N.ltb_spec (p + 2 ^ h) U64) as [_|]; [|lia].
+  exists (p + 2 ^ h). split; [reflexivity|]. split; [exact Hq | exact Hlt].
+Qed.
+
+(* positions determine (height, block index) *)
+Lemma shape_inj p h x h' x' : shape p h x -> shape p h' x' -> h = h' /\ x = x'.
+Proof.
+  intros H1 H2. assert (E : h = h').
+  { rewrite <- (shape_height_N _ _ _ H1). apply (shape_height_N _ _ _ H2). }
+  subst h'. split; [reflexivity|]. unfold shape in *. pose proof (pow2_pos h). pose proof (pow2_pos (h + 1)).
+  assert (x * 2 ^ (h + 1) = x' * 2 ^ (h + 1)) by lia.
+  apply N.mul_cancel_r in H3; [exact H3 | lia].
+Qed.
